@@ -769,6 +769,34 @@ fn zero_sized_elements(r: &mut Report, seed: u64) {
     }
 }
 
+/// Collections with 2^32 and more members (zero-sized members cost nothing): a non-empty collection is accepted, reports
+/// its full number of members and can be sampled - in every flavour.  (An index type narrower than usize breaks here.)
+fn astronomic_collections(r: &mut Report, seed: u64) {
+    for len in [1usize << 32, (1usize << 32) + 5, 1usize << 33, (1usize << 32) - 1, usize::MAX] {
+        let res = std::panic::catch_unwind(|| {
+            let mut out: Vec<String> = vec![];
+            let v: Vec<()> = vec![(); len];
+            let mut rng = SplitMix::derive(seed ^ 0xA57C, len as u64);
+            let mut check = |name: &str, built: Result<usize, EmptySlice>| match built {
+                Ok(n) => if n != len { out.push(format!("{name}: num_choices = {n}")); },
+                Err(EmptySlice) => out.push(format!("{name}: rejected as an empty collection")),
+            };
+            check("Vec::into_distribution (owning)", IntoDistribution::<()>::into_distribution(v.clone()).map(|d: OneOfCloning<Vec<()>, ()>| { d.sample(&mut rng); d.num_choices().get() }));
+            check("&Vec::into_distribution (borrowing)", IntoDistribution::<&()>::into_distribution(&v).map(|d| { let _: &() = d.sample(&mut rng); d.num_choices().get() }));
+            check("&Vec::into_distribution (cloning)", IntoDistribution::<()>::into_distribution(&v).map(|d| { let _: () = d.sample(&mut rng); d.num_choices().get() }));
+            check("OneOfCloning::new(&[..])", OneOfCloning::<&[()], ()>::new(&v[..]).map(|d| { d.sample(&mut rng); d.num_choices().get() }));
+            check("ChooseCloning::new", ChooseCloning::new(&v).map(|d| { let _: () = d.sample(&mut rng); d.num_choices().get() }));
+            out
+        });
+        r.case(&format!("astronomic collection {len}"), true);
+        r.hit("choice from a collection of 2^32 or more members");
+        let bad = match res { Ok(v) => v, Err(_) => vec!["panicked".to_string()] };
+        for b in bad {
+            r.violate(json!({"case": format!("uniform choice built from {len} zero-sized members"), "real": b, "what": "a choice built from a non-empty collection must be accepted and report the number of members it was built from"}));
+        }
+    }
+}
+
 // ---------------------------------------------------------------------------------------------
 // uniformity oracle (model-free, on the real code alone)
 // ---------------------------------------------------------------------------------------------
@@ -922,6 +950,7 @@ pub fn run(cfg: &Cfg) -> Report {
     uniformity(&mut rep, seed, thorough);
     uniformity_large(&mut rep, seed, thorough);
     zero_sized_elements(&mut rep, seed);
+    astronomic_collections(&mut rep, seed);
     rep.exhaustive = true;
     rep.notes.push(format!("exhaustive scope: {} flavours x source lengths 0..={} x {} seeds (all agree unless listed); random: {} choice cases, {} collection cases", FLAVOURS.len(), MAX_ARR, reps, n_rand_choice, n_coll));
     rep
